@@ -1,6 +1,6 @@
 // VU-remlen (C03, C08): stream::RemainingLength (crates/s3s/src/stream.rs) — how the length a body declares travels between the
 // adapter's byte streams and hyper's SizeHint: new, unknown, new_exact, exact, into_size_hint, from_size_hint (whole functions) on a
-// 64-bit target. Rewrites: R-attr, R-ret, R-pubfields, R-closurerefpat, R-closure.
+// 64-bit target; and StreamWrapper::remaining_length (dto/streaming_blob.rs). Rewrites: R-attr, R-ret, R-pubfields, R-closurerefpat, R-closure.
 #![allow(dead_code, unused)]
 #![feature(const_destruct)]
 #![verifier::allow(undeclared_external_trait)]
@@ -59,6 +59,15 @@ impl RemainingLength {
 //@@ extract exact file=crates/s3s/src/stream.rs item="impl RemainingLength/fn exact" rewrites=attr,ret,closurerefpat,closure:1:bool
 //@@ extract into_size_hint file=crates/s3s/src/stream.rs item="impl RemainingLength/fn into_size_hint" rewrites=attr,ret
 //@@ extract from_size_hint file=crates/s3s/src/stream.rs item="impl RemainingLength/fn from_size_hint" rewrites=attr,ret,closure:1:Option<usize>
+}
+
+/// dto::streaming_blob::StreamWrapper<S>: a stream of byte chunks given to StreamingBlob::wrap; its Stream::size_hint counts CHUNKS
+pub struct StreamWrapper<S> { pub inner: S }
+impl<S> StreamWrapper<S> {
+    /// (Stream::size_hint of the wrapped stream: a number of items, not of bytes; declared so that a call to it is within the subset)
+    #[verifier::external_body]
+    pub fn size_hint(&self) -> (r: (usize, Option<usize>)) { unimplemented!() }
+//@@ extract wrapper_remaining_length file=crates/s3s/src/dto/streaming_blob.rs item="impl<S> ByteStream for StreamWrapper<S> where StreamWrapper<S>: Stream<Item = Result<Bytes, StdError>>,/fn remaining_length" rewrites=attr,ret
 }
 
 } // verus!
